@@ -8,7 +8,7 @@ import time
 
 import numpy as np
 
-from lib import core, tlc, listing
+from lib import core, tlc, listing, histfile
 
 CODE = {"element": "e", "connection": "c", "generation": "g", "primary": "p", "element1": "e1", "element2": "e2"}
 CANON = ["element", "element1", "connection", "primary", "element2", "generation"]
@@ -259,6 +259,10 @@ def run(tier):
         rec.remove()
         lst.close()
     rep.traces += ncalls
+    try:
+        histfile.observe(rep, quick)
+    except Exception as e:          # (beyond the properties: never a verdict, never a failure of this check)
+        print("OBSERVATION beyond-properties (t2historyfile): harness stopped: %r" % (e,))
     rep.extra["history_calls"] = ncalls
     rep.extra["files"] = len(files)
     rep.rule = ("for every shipped listing: TLC enumerates every ordered sub-selection of the tables the file contains "
